@@ -63,7 +63,7 @@ def main():
                 json.dump({"property": prop, "kind": "panic", "panic": ex.msg, "stack": ex.stack, "driver": ex.where, "seed": seed}, f)
             vlib.write_inconclusive(prop, tier, seed, "library panic: " + ex.msg)
             print("VIOLATION property=%s replay=%s" % (prop, path))
-            print("  detail: the library panicked inside the driver (%s): %s" % (ex.where, ex.msg))
+            print("  detail: the library panicked or blocked for good inside the driver (%s): %s" % (ex.where, ex.msg))
             sys.exit(1)
     except Inconclusive as ex:
         print("INCONCLUSIVE property=%s: %s" % (prop, str(ex)[:4000]))
